@@ -49,7 +49,7 @@ HARD_ERRNOS = {
 
 
 # -------------------------------------------------------------- scenarios --
-def make_inputs(rng, kind):
+def make_inputs(rng, kind, force=None):
     """-> (files: name->bytes, inputs: argv file list, compile_ok, inputs_ok, modules)"""
     if kind == "valid_single":
         prog = pngen.generate(rng, n_funcs=rng.randint(2, 6))
@@ -88,7 +88,10 @@ def make_inputs(rng, kind):
     if kind == "zoo_invalid":
         import detsim
         zoo = detsim.zoo_sets(1)
-        z = zoo[rng.randrange(len(zoo))]
+        k = rng.randrange(len(zoo))
+        if force and force.get("zoo_index") is not None:
+            k = force["zoo_index"] % len(zoo)       # the render grid walks the zoo systematically
+        z = zoo[k]
         return {"main.pn": z["files"]["zoo.pn"]}, ["main.pn"], None, True, ["main.pn"]
     if kind == "valid_with_lints":
         prog = pngen.generate(rng, n_funcs=rng.randint(2, 5))
@@ -131,7 +134,7 @@ def make_scenario(rng, sub=None, input_kind=None, force=None):
     force = force or {}
     sub = sub or rng.choice(["build", "build_default", "run", "emit"])
     input_kind = input_kind or rng.choice(INPUT_KINDS[:2] * 3 + INPUT_KINDS)
-    files, inputs, compile_ok, inputs_ok, modules = make_inputs(rng, input_kind)
+    files, inputs, compile_ok, inputs_ok, modules = make_inputs(rng, input_kind, force)
     if compile_ok is None:
         compile_ok = None      # decided by the census (see run_census)
     sc = {"sub": sub, "input_kind": input_kind, "may_panic": input_kind == "compiler_panics", "files": files, "inputs": inputs, "compile_ok": compile_ok,
@@ -1006,7 +1009,12 @@ def _render_grid_job(args):
     seed, idx = args
     rng = rng_for(seed, "C18/render", idx)
     sub = ["emit", "run", "build"][idx % 3]
+    import detsim
+    n_ctx, n_expr = len(detsim.ZOO_CTX), len(detsim.ZOO_EXPR)
+    ci = idx % n_ctx
+    ei = ((idx // n_ctx) * 5 + ci) % n_expr          # every context, expressions five apart
     sc = make_scenario(rng, sub, "zoo_invalid", {"color": "never", "arrows": "ascii", "silent": False, "verbose": False, "cell": (0, 0, 0),
+                                                 "zoo_index": ci * n_expr + ei,
                                                  "config": "valid" if sub == "build" and idx % 2 else "none", "cfg_stdout": True,
                                                  "out_dir": "absent", "script": {"read": "all", "exit": 0}, "order": "parent_first"})
     sc["name"] = "render%d:%s" % (idx, sub)
@@ -1415,7 +1423,7 @@ def run(tier, seed):
         branches.add(res["branch"])
         raw.extend(res["violations"])
     render_cells = 0
-    for res in parallel_map(_render_grid_job, [(seed, i) for i in range(cfg.get("render", 90))]):
+    for res in parallel_map(_render_grid_job, [(seed, i) for i in range(cfg.get("render", 240))]):
         runs += 1
         render_cells += 1
         raw.extend(res["violations"])
